@@ -170,12 +170,45 @@ Fixpoint follow_ticks (n : nat) (rep : replica) (fo : follower) : follower :=
   | S n' => follow_ticks n' rep (fst (follow_tick rep fo))
   end.
 
-(** Restore with Follow when the output exists: resume validation against the
-    snapshot level ([latestSnapshot] = last item of the level-9 listing).
-    [sidecar = 0] is "no -txid file". *)
+(** Restore with Follow when the output exists: resume validation.
+    [latestSnapshot] = last item of the level-9 listing; [sidecar = 0] is "no
+    -txid file".  Since commit 0ec96d8 a sidecar ahead of the latest snapshot is
+    accepted as long as some level 0..8 reaches it:
+      maxTXID := latestSnapshot.MaxTXID
+      for level := 0; level < SnapshotLevel && txid > maxTXID; level++ {
+        info := MaxLTXFileInfo(level); if info.MaxTXID > maxTXID { maxTXID = info.MaxTXID } }
+      if txid > maxTXID -> error *)
 Inductive start_decision := Fresh | Resume (t : N) | RefuseNoTxid | RefusePruned | RefuseAhead.
 
-Definition resume_check (db_exists : bool) (sidecar : N) (snaps : list (N * N)) : start_decision :=
+(** Replica.MaxLTXFileInfo(level).MaxTXID *)
+Definition level_max (lv : list ltxf) : N :=
+  fold_left (fun m f => if m <? f_max f then f_max f else m) lv 0.
+
+Fixpoint resume_max (levels : list (list ltxf)) (txid maxT : N) : N :=
+  match levels with
+  | [] => maxT
+  | lv :: rest =>
+      if maxT <? txid then
+        let m := level_max lv in
+        resume_max rest txid (if maxT <? m then m else maxT)
+      else maxT
+  end.
+
+Definition resume_check (db_exists : bool) (sidecar : N) (snaps : list (N * N)) (rep : replica) : start_decision :=
+  if db_exists then
+    if sidecar =? 0 then RefuseNoTxid
+    else
+      match rev snaps with
+      | [] => Resume sidecar
+      | (smin, smax) :: _ =>
+          if sidecar <? smin then RefusePruned
+          else if resume_max (firstn 9 rep) sidecar smax <? sidecar then RefuseAhead
+          else Resume sidecar
+      end
+  else Fresh.
+
+(** the rule before commit 0ec96d8 (kept to document the repaired defect) *)
+Definition resume_check_old (db_exists : bool) (sidecar : N) (snaps : list (N * N)) : start_decision :=
   if db_exists then
     if sidecar =? 0 then RefuseNoTxid
     else
@@ -187,6 +220,46 @@ Definition resume_check (db_exists : bool) (sidecar : N) (snaps : list (N * N)) 
           else Resume sidecar
       end
   else Fresh.
+
+(** The initial restore of follow mode as the sequence of externally visible
+    changes to the output directory.  [od_db] is <out>, [od_tmp] is <out>.tmp,
+    [od_side] the -txid sidecar (0 = absent; WriteTXIDFile publishes it
+    atomically by rename).  Since commit 22eeea8 the sidecar is published
+    BEFORE the database is renamed into place ([sidecar_first = true]); the old
+    order is [sidecar_first = false].  When the post-restore integrity check
+    fails the database is removed, then the sidecar. *)
+Record outdir := mkOd { od_db : option image; od_tmp : option image; od_side : N }.
+
+Inductive rstep :=
+| RWriteTmp (im : image)     (* <out>.tmp now holds [im] (create / decode progress) *)
+| RSidecar (t : N)           (* WriteTXIDFile *)
+| RPublish                   (* rename <out>.tmp -> <out> *)
+| RRemoveDb                  (* integrity check failed: os.Remove(<out>) *)
+| RRemoveSide.               (*                          os.Remove(<out>-txid) *)
+
+Definition rstep_apply (od : outdir) (s : rstep) : outdir :=
+  match s with
+  | RWriteTmp im => mkOd (od_db od) (Some im) (od_side od)
+  | RSidecar t => mkOd (od_db od) (od_tmp od) t
+  | RPublish => match od_tmp od with
+                | Some im => mkOd (Some im) None (od_side od)
+                | None => od
+                end
+  | RRemoveDb => mkOd None (od_tmp od) (od_side od)
+  | RRemoveSide => mkOd (od_db od) (od_tmp od) 0
+  end.
+
+Definition initial_restore (sidecar_first integrity_fails : bool) (partials : list image)
+           (target : image) (t : N) : list rstep :=
+  map RWriteTmp partials ++ [RWriteTmp target] ++
+  (if sidecar_first then [RSidecar t; RPublish] else [RPublish; RSidecar t]) ++
+  (if integrity_fails then [RRemoveDb; RRemoveSide] else []).
+
+Definition run_rsteps (od : outdir) (l : list rstep) : outdir := fold_left rstep_apply l od.
+
+(** what the next Restore(Follow) does with the directory a kill left behind *)
+Definition restart_decision (od : outdir) (snaps : list (N * N)) (rep : replica) : start_decision :=
+  resume_check (match od_db od with Some _ => true | None => false end) (od_side od) snaps rep.
 
 (** ------------------------------------------------------------------ *)
 (** Specification side: the chain rule and reachability, stated without
